@@ -163,10 +163,10 @@ func genHval(r *rand.Rand, kind int) sx.V {
 		c19Hints[d.String()] = [2]int{minBytes(sv), minBytes(tv) + r.Intn(2)}
 		return d
 	}
-	panic("kind")
+	return genHvalX(r, kind)
 }
 
-const nKinds = 19
+const nKinds = nKindsX
 
 // c19Hints: announced byte lengths of the S and T Nats of a Pedersen value (kind 18), keyed by the printed description.
 // The announced length is an implementation detail of saferith (what a peer's CBOR encoding chose); the typed value is
@@ -278,7 +278,7 @@ func goValue(v sx.V) interface{} {
 		}
 		return pedersen.New(arith.ModulusFromN(saferith.ModulusFromNat(natOf(n, n.BitLen()))), natOf(a[1].Z, sb), natOf(a[2].Z, tb))
 	}
-	panic("kind")
+	return goValueX(v)
 }
 
 func goDigest(vals []sx.V) (digest []byte, ok bool) {
@@ -520,7 +520,7 @@ func perturbValue(v sx.V) *sx.V {
 		}
 		out = sx.List(v.L[0], v.L[1], sx.Big(z))
 	default:
-		return nil
+		return perturbValueX(v)
 	}
 	return &out
 }
@@ -590,6 +590,7 @@ func runC19(c *ctx) {
 	if c.thorough() {
 		nSeq = 6000
 	}
+	c.c19xSmallCorpus()
 	// 1. every kind alone (several times), then random sequences
 	var seqs [][]sx.V
 	for k := 0; k < nKinds; k++ {
@@ -611,6 +612,7 @@ func runC19(c *ctx) {
 	}
 	for _, s := range seqs {
 		gd, ms, _ := c.c19CheckSeq(s, fmt.Sprintf("seq-len-%d", len(s)))
+		c.c19DirectWriteTo(s)
 		c.res.Sample(3, map[string]string{"sequence": seqString(s), "digest": hex.EncodeToString(gd[:8])})
 		// 2. search: related sequences must have different digests (and different model streams)
 		rel, shapes := relatedPairs(r, s)
@@ -632,6 +634,7 @@ func runC19(c *ctx) {
 			}
 		}
 	}
+	c.c19xWidthProbe()
 	// 3. commitments
 	nCom := 60
 	if c.thorough() {
